@@ -39,11 +39,17 @@ var ErrOldRecord = errors.New("old record")
 //
 // A ValueStore is safe for concurrent use. Writes to the same key are
 // serialised so that a concurrent Put cannot overwrite a better record.
+// putLocks serialises the read-select-write of Put (and the re-read-delete of
+// a discard) per key. It is shared by every ValueStore of the process: stores
+// that sit on the same datastore - the WAN and LAN DHT of a dual DHT that was
+// given one datastore - have to serialise against each other as well, or one
+// of them can overwrite a better record the other has just acknowledged.
+var putLocks [256]sync.Mutex
+
 type ValueStore struct {
 	ds           ds.Datastore
 	validator    record.Validator
 	maxRecordAge time.Duration
-	putLocks     [256]sync.Mutex
 
 	// namespaces are the value record namespaces the background GC sweeps. It is
 	// derived from validator at construction so the sweep only scans keys the
@@ -133,7 +139,7 @@ func (v *ValueStore) Put(ctx context.Context, key string, rec *recpb.Record) err
 		return fmt.Errorf("validating record: %w", err)
 	}
 
-	lock := &v.putLocks[lockIndex(key)]
+	lock := &putLocks[lockIndex(key)]
 	lock.Lock()
 	defer lock.Unlock()
 
@@ -206,7 +212,7 @@ func (v *ValueStore) expired(rec *recpb.Record) bool {
 // re-reads, so it never clobbers a good record written by a concurrent Put
 // between the read and the delete. Failures are logged, not returned.
 func (v *ValueStore) discardIfUnchanged(ctx context.Context, key string, dskey ds.Key, seen []byte) {
-	lock := &v.putLocks[lockIndex(key)]
+	lock := &putLocks[lockIndex(key)]
 	lock.Lock()
 	defer lock.Unlock()
 
